@@ -4,8 +4,8 @@
     [manifest] is a transcription of the [features] tables and optional dependencies of the
     nine Cargo.toml files (same order as in the files).  The check regenerates the same
     structure from the files as they are now and has coqc compare the two
-    ([manifest_mismatch]), so a feature added to or removed from /repo breaks the
-    correspondence visibly.
+    ([manifest_mismatch], order-insensitive: see [entry_eqb]), so a feature added to or
+    removed from /repo breaks the correspondence visibly.
 
     [select] transcribes the [cfg] attributes that mention a cargo feature (all of them:
     a grep for cfg feature tests over the workspace):
@@ -57,10 +57,25 @@ Fixpoint list_eqb {A} (eqb : A -> A -> bool) (a b : list A) : bool :=
 
 Definition strs_eqb := list_eqb String.eqb.
 
+(** The order of the keys of a [features] table, of the members of a feature's list and of
+    `default` means nothing to cargo: manifests are compared as SETS (mutual inclusion), so that
+    reordering a Cargo.toml is not a change of the lattice while an added, removed or renamed
+    feature, default member or implication still is. *)
+Definition subset_b {A} (eqb : A -> A -> bool) (a b : list A) : bool :=
+  forallb (fun x => existsb (eqb x) b) a.
+
+Definition set_eqb {A} (eqb : A -> A -> bool) (a b : list A) : bool :=
+  subset_b eqb a b && subset_b eqb b a.
+
+Definition strs_set_eqb := set_eqb String.eqb.
+
 Definition entry_eqb (a b : manifest_entry) : bool :=
-  String.eqb (e_name a) (e_name b) && strs_eqb (e_named a) (e_named b)
-  && strs_eqb (e_implicit a) (e_implicit b) && strs_eqb (e_default a) (e_default b)
-  && list_eqb (fun x y => String.eqb (fst x) (fst y) && strs_eqb (snd x) (snd y)) (e_implies a) (e_implies b).
+  String.eqb (e_name a) (e_name b) && strs_set_eqb (e_named a) (e_named b)
+  && Nat.eqb (length (e_named a)) (length (e_named b))
+  && strs_set_eqb (e_implicit a) (e_implicit b)
+  && Nat.eqb (length (e_implicit a)) (length (e_implicit b))
+  && strs_set_eqb (e_default a) (e_default b)
+  && set_eqb (fun x y => String.eqb (fst x) (fst y) && strs_set_eqb (snd x) (snd y)) (e_implies a) (e_implies b).
 
 Fixpoint mismatch_from (i : N) (a b : list manifest_entry) : list N :=
   match a, b with
